@@ -128,7 +128,7 @@ func (x *Exec) evalCall(s *State, e *ast.CallExpr) Val {
 	}
 	c := x.resolveCallee(s, e)
 	// intrinsics keyed by extern name operate on expressions
-	if c.fn != nil {
+	if c.fn != nil && !x.intrinsicHasRule(c) {
 		if h, ok := intrinsics[externKey(c.fn.Origin())]; ok {
 			if v, handled := h(x, s, e, c); handled {
 				return v
@@ -370,9 +370,35 @@ func (x *Exec) dispatch(s *State, e *ast.CallExpr, c callee, recv *Val, args []V
 	return res
 }
 
+// intrinsicHasRule: a call-site rule of the top contract names this (intrinsically modelled) callee.
+func (x *Exec) intrinsicHasRule(c callee) bool {
+	tc := x.topContract()
+	if tc == nil || c.fn == nil {
+		return false
+	}
+	if _, ok := intrinsics[externKey(c.fn.Origin())]; !ok {
+		return false
+	}
+	for _, r := range tc.CallSites {
+		if r.callee == c.fn.Name() || r.callee == objKey(c.fn) {
+			return true
+		}
+	}
+	return false
+}
+
 // dispatchInner: contract, inline, assumed, or havoc.
 func (x *Exec) dispatchInner(s *State, e *ast.CallExpr, c callee, recv *Val, args []Val) Val {
 	pos := e.Pos()
+	if c.fn != nil && x.intrinsicHasRule(c) {
+		// an intrinsic that a call-site rule of the function under verification talks about: the
+		// rule has been applied by dispatch, now the built-in model
+		if h, ok := intrinsics[externKey(c.fn.Origin())]; ok {
+			if v, handled := h(x, s, e, c); handled {
+				return v
+			}
+		}
+	}
 	if c.fv != nil && c.fv.Lit != nil {
 		return x.inlineLit(s, c.fv, args, pos)
 	}
@@ -518,7 +544,7 @@ func (x *Exec) havocHeap(s *State) {
 	s.pc = s.pc.push(mkCmp("<=", cur, nxt))
 	s.heap["$alloc"] = nxt
 	for _, n := range sortedKeys(s.heap) {
-		if n == "$alloc" || strings.HasPrefix(n, "G$") {
+		if n == "$alloc" || strings.HasPrefix(n, "G$") || x.eng.immutableArray(n) {
 			continue
 		}
 		s.heapHavoc(n, x.eng.decl[s.heap[n]])
